@@ -296,6 +296,7 @@ type w4World struct {
 	revokesInCall int
 	shutdownDone  bool
 	bdelSeen      bool
+	bdelKeys      map[string]bool // keys the backend removed at some point of the run
 	base          w4Gauges // gauges before the first connection was created
 }
 
@@ -1142,6 +1143,10 @@ func (w *w4World) runBackend(ops []w4Op) {
 		case "bdel":
 			w.store.keys[key].removed = true
 			w.bdelSeen = true
+			if w.bdelKeys == nil {
+				w.bdelKeys = map[string]bool{}
+			}
+			w.bdelKeys[key] = true
 			s.Event("backend removes %s", key)
 			s.Fault("backend_removed_key")
 		case "flip":
